@@ -90,8 +90,9 @@ def numbers_as_text(ctx: Ctx, pid: str) -> None:
         for k in r.kinds & {"INT", "FLOAT"}:
             seen.add(k)
             if r.outcome != "convert":
-                ctx.fail(f"{pid}.num", where, f"{k} item", f"a {k} child is not converted to its str() text (outcome: {r.outcome} {r.action})",
-                         witness="div(1.5)")
+                ctx.fail(f"{pid}.num", where, f"{k} item stored as {short(r.value)}" if r.outcome == "other" else f"{k} item",
+                         f"a {k} child is not stored as the plain string str(item) (outcome: {r.outcome} {r.action} {short(r.value) if r.value is not None else ''}): "
+                         f"it would not be escaped like other text", witness="class P(float): __str__ = lambda s: '<0.001'; div(P(0.0005))")
                 continue
             v = r.value
             item = r.__dict__["item"]
